@@ -42,6 +42,8 @@ func main() {
 		return
 	case "replay":
 		os.Exit(replayMain(fs.Args()))
+	case "sched-worker":
+		os.Exit(schedWorker(os.Args[2:]))
 	}
 	f, ok := checks[id]
 	if !ok {
@@ -64,4 +66,10 @@ func flagSet(fs *flag.FlagSet, name string) bool {
 		}
 	})
 	return set
+}
+
+// schedWorker is replaced by the schedule-exploration worker in builds with the sched tag.
+var schedWorker = func(args []string) int {
+	fmt.Fprintln(os.Stderr, "this binary was built without the sched tag")
+	return 2
 }
